@@ -185,9 +185,8 @@ def replay13(hist, keep_world=False) -> mut.Run:
         except RecursionError:
             res = [1, 8]
         except Exception as e:
-            res = [1, H.err_class(e)]
+            res = mut.outcome_of(e)   # an unusable data_id (raising hook, unhashable value) is ONE outcome, as in mut.replay
             if isinstance(e, CallbackFault):
-                res = [1, 8]
                 injected = True
         finally:
             sys.setrecursionlimit(_old)
@@ -1240,10 +1239,8 @@ def run_from_dict_k(univ, setup, ti, p, items, k, fresh, fn="name"):
     t._calc_data_id_hook = ticking
     try:
         res = [0, thunk()]
-    except CallbackFault:
-        res = [1, 8]
     except Exception as e:
-        res = [1, H.err_class(e)]
+        res = mut.outcome_of(e)
     finally:
         t._calc_data_id_hook = hook
     mine = [res, w.obs()]
